@@ -17,7 +17,7 @@ theorem Same.refl (st : SState) : Same st st := ⟨rfl, Mono.refl _⟩
 theorem Same.trans {s1 s2 s3 : SState} (h1 : Same s1 s2) (h2 : Same s2 s3) : Same s1 s3 :=
   ⟨h2.1.trans h1.1, h1.2.trans h2.2⟩
 
-theorem quiesceLoop_same {g : Game P} {ex : Explore} {rec : P → Score → Score → SState → Score × SState} {p : P}
+theorem quiesceLoop_same {g : Game P} {ex : P → Explore} {rec : P → Score → Score → SState → Score × SState} {p : P}
     {b : Score} (hrec : ∀ c a b st, Same st (rec c a b st).2) :
     ∀ (l : List Move) (a : Score) (hl : Bool) (st : SState), Same st (quiesceLoop g ex rec p b l a hl st).2.2 := by
   intro l
@@ -28,7 +28,7 @@ theorem quiesceLoop_same {g : Game P} {ex : Explore} {rec : P → Score → Scor
     cases hpush : g.push p m with
     | none => simp only [quiesceLoop, childOf, hpush]; exact ih _ _ _
     | some c =>
-      cases hp : ex.pick m with
+      cases hp : (ex p).pick m with
       | false =>
         simp only [quiesceLoop, childOf, hpush, hp, Bool.false_eq_true, if_false]
         split
@@ -41,17 +41,17 @@ theorem quiesceLoop_same {g : Game P} {ex : Explore} {rec : P → Score → Scor
         · exact this
         · exact this.trans (ih _ _ _)
 
-theorem quiesce_succ_eq {g : Game P} {ex : Explore} {fuel : Nat} {p : P} {a b : Score} {st : SState} :
+theorem quiesce_succ_eq {g : Game P} {ex : P → Explore} {fuel : Nat} {p : P} {a b : Score} {st : SState} :
     quiesce g ex (fuel + 1) p a b st =
       if cancelled st then (zeroScore, tick st) else
       if g.isDraw p then (zeroScore, tick st) else
-      (let r := quiesceLoop g ex (quiesce g ex fuel) p b (heapOrder (g.moves p) ex.prio)
+      (let r := quiesceLoop g ex (quiesce g ex fuel) p b (heapOrder (g.moves p) (ex p).prio)
           (Score.max a (heuristicScore (g.eval p))) false { tick st with nodes := (tick st).nodes + 1 }
        if !r.2.1 then (terminal g p, r.2.2) else (r.1, r.2.2)) := by
   simp only [quiesce, poll_eq, terminal]
   rfl
 
-theorem quiesce_same (g : Game P) (ex : Explore) :
+theorem quiesce_same (g : Game P) (ex : P → Explore) :
     ∀ fuel p a b st, Same st (quiesce g ex fuel p a b st).2 := by
   intro fuel
   induction fuel with
@@ -65,16 +65,16 @@ theorem quiesce_same (g : Game P) (ex : Explore) :
     · by_cases hd : g.isDraw p = true
       · simp only [hc, hd, if_true, Bool.false_eq_true, if_false]; exact ht
       · simp only [hc, hd, Bool.false_eq_true, if_false]
-        have hl := quiesceLoop_same (g := g) (ex := ex) (p := p) (b := b) (ih) (heapOrder (g.moves p) ex.prio)
+        have hl := quiesceLoop_same (g := g) (ex := ex) (p := p) (b := b) (ih) (heapOrder (g.moves p) (ex p).prio)
           (Score.max a (heuristicScore (g.eval p))) false { tick st with nodes := (tick st).nodes + 1 }
         have h2 : Same st { tick st with nodes := (tick st).nodes + 1 } := ⟨rfl, mono_tick st⟩
-        by_cases hh : (!(quiesceLoop g ex (quiesce g ex fuel) p b (heapOrder (g.moves p) ex.prio)
+        by_cases hh : (!(quiesceLoop g ex (quiesce g ex fuel) p b (heapOrder (g.moves p) (ex p).prio)
           (Score.max a (heuristicScore (g.eval p))) false { tick st with nodes := (tick st).nodes + 1 }).2.1) = true
         · simp only [hh, if_true]; exact h2.trans hl
         · simp only [hh, Bool.false_eq_true, if_false]; exact h2.trans hl
 
 /-- One node of `quiesce` with fuel left that stayed live, given the contract one level down. -/
-theorem quiesce_succ_tt {g : Game P} (hev : EvalOk g) (ex : Explore) {Inv : TTState → Prop} (K fuel : Nat)
+theorem quiesce_succ_tt {g : Game P} (hev : EvalOk g) (ex : P → Explore) {Inv : TTState → Prop} (K fuel : Nat)
     (hf : K + fuel + 1 ≤ 127)
     (IH : RecTT Inv (fun _ => True) (K + fuel) (Q g ex fuel) (fun _ _ _ => True) (wrapQ (quiesce g ex fuel)))
     (p : P) (a b : Score) (st : SState) (hinv : Inv st.tt) (ha : okN (K + fuel + 1) a) (hb : okN (K + fuel + 1) b) :
@@ -107,13 +107,13 @@ theorem quiesce_succ_tt {g : Game P} (hev : EvalOk g) (ex : Explore) {Inv : TTSt
       okN_mono (okN_heuristic (hev p).1 (hev p).2) (by omega)
     obtain ⟨_, ha1, ra1⟩ := raise_spec ha hsc
     rw [← scoreMax_eq] at ha1 ra1
-    have hperm := ABHeap.heapOrder_perm (g.moves p) ex.prio
+    have hperm := ABHeap.heapOrder_perm (g.moves p) (ex p).prio
     rw [quiesceLoop_eq g ex _ p b _ _ []] at hr
     obtain ⟨hm, _, hpost⟩ := abLoop_tt (g := g) (ex := ex) (p := p) IH (by omega) (b := b)
-      (heapOrder (g.moves p) ex.prio) (fun _ _ _ _ _ => trivial)
+      (heapOrder (g.moves p) (ex p).prio) (fun _ _ _ _ _ => trivial)
       (Score.max a (heuristicScore (g.eval p))) [] false
       { tick st with nodes := (tick st).nodes + 1 } hinv (fun _ => ⟨ha1, hb⟩) _ rfl
-    generalize abLoop g ex (wrapQ (quiesce g ex fuel)) p b (heapOrder (g.moves p) ex.prio)
+    generalize abLoop g ex (wrapQ (quiesce g ex fuel)) p b (heapOrder (g.moves p) (ex p).prio)
       (Score.max a (heuristicScore (g.eval p))) [] false
       { tick st with nodes := (tick st).nodes + 1 } = res at hr hm hpost
     simp only [projQ] at hr
@@ -153,7 +153,7 @@ theorem quiesce_succ_tt {g : Game P} (hev : EvalOk g) (ex : Explore) {Inv : TTSt
       exact ⟨okN_mono (okN_terminal g p) (by omega), Or.inl rfl, fun _ => clip_self _ _ _⟩
 
 /-- Node contract of `quiesce` under any table invariant and with cancellation. -/
-theorem quiesce_recTT {g : Game P} (hev : EvalOk g) (ex : Explore) (Inv : TTState → Prop) (K : Nat) :
+theorem quiesce_recTT {g : Game P} (hev : EvalOk g) (ex : P → Explore) (Inv : TTState → Prop) (K : Nat) :
     ∀ fuel, K + fuel ≤ 127 →
       RecTT Inv (fun _ => True) (K + fuel) (Q g ex fuel) (fun _ _ _ => True) (wrapQ (quiesce g ex fuel)) := by
   intro fuel
